@@ -330,9 +330,23 @@ func runC12(p *Prog, l *Ledger) {
 			if !p.InPkg(f, "limiter") {
 				continue
 			}
-			var evicts, delivers []*ssa.Call
+			var evicts []*ssa.Call
+			var delivers []ssa.Instruction
 			hasAcq := false
 			allInstrs(f, func(ins ssa.Instruction) {
+				// a delivery written in place: a select / send offering a Listener on a channel
+				switch x := ins.(type) {
+				case *ssa.Select:
+					for _, st := range x.States {
+						if st.Dir == types.SendOnly && st.Send != nil && types.Identical(st.Send.Type(), lis) {
+							delivers = append(delivers, ins)
+						}
+					}
+				case *ssa.Send:
+					if types.Identical(x.X.Type(), lis) {
+						delivers = append(delivers, ins)
+					}
+				}
 				call, ok := ins.(*ssa.Call)
 				if !ok {
 					return
@@ -367,7 +381,7 @@ func runC12(p *Prog, l *Ledger) {
 					k := 0
 					before := true
 					pa.Each(func(step int, ins ssa.Instruction) bool {
-						if ins == ssa.Instruction(d) {
+						if ins == d {
 							before = false
 						}
 						for _, e := range evicts {
